@@ -491,6 +491,59 @@ def r10d(ck, prog):
         raise AnalysisBroken("R10d slot: store to msa->nsip[c] not found")
 
 
+def r10h(ck, prog):
+    """the cursor into the new-gap vector walks the row as it was before this merge: inside one iteration of update_gaps' slot
+    loop no read of a gap count is reachable from the store that enlarges that count - a position computed from the already
+    enlarged count shifts every later slot of the row by the columns the row has just received, and by a different amount for
+    each row of the group"""
+    from ..model import access_mode
+    U = prog.fn("update_gaps")
+    E = Effects(prog)
+    gis = None
+    for i, p_ in enumerate(U.params):
+        if p_["ty"].endswith("*") and E.of_param("update_gaps", i).pwrites:
+            gis = p_
+    if gis is None:
+        raise AnalysisBroken("R10h slot: the counts parameter of update_gaps was not resolved")
+    subs = [x for x in U.body.find("ArraySubscriptExpr") if x.kids[0].strip(casts=True).k == "DeclRefExpr" and
+            x.kids[0].strip(casts=True).d["did"] == gis["did"]]
+    stores = [x for x in subs if access_mode(x) in ("write", "rmw")]
+    reads = [x for x in subs if access_mode(x) == "read"]
+    if not stores or not reads:
+        raise AnalysisBroken("R10h slot: update_gaps has %d store(s) and %d plain read(s) of the counts" % (len(stores), len(reads)))
+    cfg = U.cfg
+    n = 0
+    for st in stores:
+        loops = [a for a in st.ancestors() if a.k in ("ForStmt", "WhileStmt", "DoStmt")]
+        if not loops:
+            raise AnalysisBroken("R10h: the store to the counts in update_gaps is not in a loop")
+        outer = loops[0]
+        stn = st
+        while stn.parent is not None and stn.parent.k not in ("CompoundStmt", "ForStmt", "WhileStmt", "IfStmt"):
+            stn = stn.parent
+        back = [cfg.position(x) for x in (outer.child("cond"), outer.child("inc")) if x is not None]
+        back = [b_ for b_ in back if b_ is not None]
+        for rd in reads:
+            if not rd.within(outer) or rd.kids[1].text() != st.kids[1].text() or rd.within(stn):
+                continue
+            # only reads that feed a position carried to the next slot (rel_pos += gis[i] + 1), not the bound of the scan itself
+            asg = next((a for a in rd.ancestors() if (a.k == "CompoundAssignOperator" or (a.k == "BinaryOperator" and a.d["op"] == "=")) and
+                        a.kids[0].strip().k == "DeclRefExpr" and rd.within(a.kids[1])), None)
+            if asg is None:
+                continue
+            n += 1
+            sp, rp = cfg.position(stn), cfg.position(rd)
+            late = sp is not None and rp is not None and cfg.reaches(sp, rp, avoid=back)
+            ck.inst("R10h", site(prog, rd, rd.text()), "update_gaps reads %s %s the count is enlarged in the same iteration" % (
+                rd.text(), "AFTER" if late else "before"), prog.config)
+            if late:
+                ck.violation("R10h", "R10h/update_gaps/enlarged-count", site(prog, rd),
+                             "update_gaps uses %s after %s in the same iteration: the position in the new-gap vector then advances by the "
+                             "row's enlarged width, later slots of this row look up the vector at shifted columns, and rows of one finished "
+                             "group are opened at different places" % (rd.text(), stn.text()[:40]), prog.config)
+    ck.floor("R10h", n, 1, "position updates computed from a gap count in the slot loop")
+
+
 def r10g(ck, prog):
     """a node is handed to its parent only when its merge, including the weaving of the new gaps into every member row, is
     complete: every omp task in the functions reachable from create_msa_tree is joined by a taskwait before the spawning
@@ -507,6 +560,7 @@ def r10g(ck, prog):
 
 def run(ck, progs):
     describe(ck)
+    ck.rule("R10h", "inside one iteration of update_gaps' slot loop no read of a gap count is reachable from the store that enlarges it: the vector cursor walks the row as it was before the merge")
     ck.rule("R10g", "every omp task under create_msa_tree (child merges, gap weaving) is joined before the spawning function calls, stores shared data or returns: a parent never merges a group whose own merge is still running")
     for cfg, prog in progs.items():
         ck.attempt(r10a, ck, prog)
@@ -517,6 +571,7 @@ def run(ck, progs):
         from . import c01
         ck.borrow(c01.r01i, prog, "R10f", ("R01i",))
         ck.attempt(r10g, ck, prog)
+        ck.attempt(r10h, ck, prog)
     return ("Effect summary of create_msa_tree on msa (which paths under msa->sequences are written while aligning); "
             "all uses of msa_seq.gaps in the functions reachable from create_msa_tree; form of every store in update_gaps "
             "and into make_seq's vectors; argument agreement, loop coverage and vector immutability of the update_gaps "
